@@ -486,6 +486,33 @@ fn main() {
     if args.blocks() {
         builder_clause(&mut ev);
     }
+    // plateaus (runs of ties) of every length 1..70 at the start, in the middle and at the end
+    // of a rising / falling vector with 1..20 strict steps on the other side(s)
+    if args.only.map_or(true, |o| (3_000_000..4_000_000).contains(&o)) && args.shard == 0 {
+        let mut k = 0u64;
+        for run in 1..=70usize {
+            for steps in 1..=20usize {
+                for place in 0..3u8 {
+                    for dir in [0u8, 2u8] {
+                        k += 1;
+                        let ties = vec![1u8; run];
+                        let strict = vec![dir; steps];
+                        let word: Vec<u8> = match place {
+                            0 => [ties.clone(), strict.clone()].concat(),
+                            1 => [strict.clone(), ties.clone(), strict.clone()].concat(),
+                            _ => [strict.clone(), ties.clone()].concat(),
+                        };
+                        check_word::<f64>(&word, &mut ev, 3_000_000 + k, &[0, 2]);
+                        if k % 7 == 0 {
+                            check_word::<i32>(&word, &mut ev, 3_000_000 + k, &[0]);
+                            check_word::<f32>(&word, &mut ev, 3_000_000 + k, &[0]);
+                        }
+                        ev.add("plateau_vectors", 1);
+                    }
+                }
+            }
+        }
+    }
     let complete = (1..=max_pairs).all(|l| (0..3).all(|p| ev.hist_get("word_lengths_completed", &format!("{l}:{p}")) == 1));
     let expect_words: u64 = (1..=max_pairs as u32).map(|l| 3u64.pow(l)).sum();
     ev.finish(
